@@ -18,6 +18,9 @@ Check @enum_impl_header_good.
 Check @diff_enum_params_exact.
 Check @mentioned_params_declared.
 Check @diff_enum_uses_consistent.
+Check @diff_enum_variants_aligned.
+Check @variant_names_distinct.
+Check @plain_payload.
 Print Assumptions parse_complete.
 Print Assumptions option_is_recognised.
 Print Assumptions print_parse_roundtrip.
@@ -34,3 +37,6 @@ Print Assumptions enum_impl_header_good.
 Print Assumptions diff_enum_params_exact.
 Print Assumptions mentioned_params_declared.
 Print Assumptions diff_enum_uses_consistent.
+Print Assumptions diff_enum_variants_aligned.
+Print Assumptions variant_names_distinct.
+Print Assumptions plain_payload.
